@@ -41,7 +41,7 @@ def expand(r):
             kids.extend(expand(c))
         r2 = dict(r)
         r2["c"] = kids
-        r2["how"] = "ctor"
+        r2["how"] = "used_as_context" if r.get("how") == "used_as_context" else "ctor"
         return [r2]
     if k == "none":
         return []
